@@ -80,6 +80,28 @@ static Case cases[] = {
              return printf("expected F1 90 80 80, got %u units starting %02X\n", s->Length(), (unsigned char)s->First()[0]), 1;
          return 0;
      }},
+    // ---- C15 order
+    {"string_prefix_order", [] {
+         String<char> a{"a"}, b{"ab"};
+         int bad = 0;
+         bad += !(a < b);
+         bad += !(b > a);
+         bad += (a > b);
+         bad += !(a <= b);
+         bad += (b <= a);
+         return bad ? (printf("proper prefix not ordered: %d wrong answers\n", bad), 1) : 0;
+     }},
+    {"value_equal_cross_kind", [] {
+         Value<char> a = JSON::Parse("{\"a\":1}"), b = JSON::Parse("[1]");
+         return ((a == b) || (b == a)) ? (printf("object == array: %d, array == object: %d\n", (int)(a == b), (int)(b == a)), 1) : 0;
+     }},
+    {"sort_reverse_ordered_large", [] {
+         // descending input, ascending sort: recursion depth must stay logarithmic
+         Array<SizeT32> arr;
+         for (SizeT32 i = 150000; i != 0; i--) arr += i;
+         arr.Sort(true);
+         return (arr.First()[0] == 1 && arr.First()[149999] == 150000) ? 0 : 1;
+     }},
     // ---- C12 Value typestate
     {"value_remove_by_string_key", [] {
          Value<char> v = JSON::Parse("{\"abc\":1,\"d\":2}");
